@@ -49,6 +49,13 @@ def tree():
         "inc/api.h": "/* api */\nint api_fn(int a)\n{\n" + "    a = a + 1;\n" * 40 + "    return a;\n}\n",
         "BUILD": py("build_rule", 33),
         "LICENSE": "def not_code():\n" + "    x = 1\n" * 40,
+        # a file that is nothing but one 31-line function, last line not newline-terminated (file-size shortcuts misjudge it)
+        "bare31.py": py("bare_fn", 31).rstrip("\n"),
+        "src/bare31.js": js("bareJs", 31).rstrip("\n"),
+        "bare61.py": py("bare_big", 61).rstrip("\n"),
+        # suppression markers: scan omits these functions, so must check
+        "marked.py": py("kept_fn", 35) + "\n" + py("silenced_fn", 61).replace("def silenced_fn():", "def silenced_fn():  # nocl: generated"),
+        "src/marked.js": js("keptJs", 33) + "\n" + js("silencedJs", 62).replace("function silencedJs() {", "function silencedJs() { // NOCL"),
     }
     return t
 
